@@ -676,7 +676,8 @@ func builtinSplice(args ...Object) (Object, error) {
 		}
 	}
 	// if count of to be deleted items is bigger than expected, truncate it
-	if startIdx+delCount > arrayLen {
+	// (compared this way round: startIdx+delCount overflows for a huge count)
+	if delCount > arrayLen-startIdx {
 		delCount = arrayLen - startIdx
 	}
 	// delete items
